@@ -1,7 +1,8 @@
 //@@ unit c04_tails properties=C04
 // Termination of the doubling tail-window loops (and of every inner loop) of three status capabilities, for every thread and every cache
-// state: compaction_status_v1, provider_cursor_rotate_v1, context_selection_status_v1 - the loops of defect F12.  provider_cursor_status_v1
-// (function-local key struct with derived Hash, HashMap entry API) is outside this Verus and stays with the bounded clause of c04_status.
+// state: compaction_status_v1, provider_cursor_rotate_v1, context_selection_status_v1, provider_cursor_status_v1 - the loops of defect F12.
+// provider_cursor_status_v1 keeps a function-local key struct with derived Hash and the HashMap entry API: the container is replaced by an opaque
+// one through R11 rewrites (prelude/provider_cursor_status_*.rs); termination depends on it only through `len`.
 #![allow(unused_imports, dead_code, unused_variables, unused_mut)]
 use vstd::prelude::*;
 use vstd::std_specs::iter::IteratorSpec;
@@ -45,12 +46,26 @@ pub struct ContinuityStore { pub stream_cache: ContinuityStreamCache }
 //@@ item crates/ripd/src/continuities.rs struct ContextSelectionStatusResetV1 dropderive=Clone
 //@@ item crates/ripd/src/continuities.rs struct ContextSelectionStatusDecisionV1 dropderive=Clone
 //@@ item crates/ripd/src/continuities.rs struct ContextSelectionStatusV1Response dropderive=Clone
+//@@ include prelude/provider_cursor_status_types.rs
 impl ContinuityStore {
     #[verifier::external_body] pub fn get(&self, id: &str) -> Option<ContinuityMeta> { unimplemented!() }
     #[verifier::external_body] pub fn compaction_cut_points_v1(&self, id: &str, req: CompactionCutPointsV1Request) -> Result<CompactionCutPointsV1Response, String> { unimplemented!() }
     #[verifier::external_body] pub fn find_inflight_compaction_job_id_best_effort_v1(&self, id: &str) -> Option<String> { unimplemented!() }
     #[verifier::external_body] pub fn replay_events(&self, id: &str) -> io::Result<Vec<Event>> { unimplemented!() }
     #[verifier::external_body] pub fn append_provider_cursor_updated(&self, id: &str, p: ProviderCursorUpdatedPayload) -> Result<String, String> { unimplemented!() }
+
+    //@@ include prelude/provider_cursor_status_rewrites.rs
+    //@@ sig
+    //@@ loop 0
+        invariant 256 * 1024 <= tail_bytes <= 8 * 1024 * 1024,
+        decreases 8 * 1024 * 1024 - tail_bytes          // [provider_cursor_status.tail_window_loop_terminates]
+    //@@ loop 1
+        invariant __i1 <= __s1.len(), 256 * 1024 <= tail_bytes <= 8 * 1024 * 1024,
+        decreases __i1
+    //@@ loop 2
+        invariant __i2 <= __s2.len(),
+        decreases __i2
+    //@@ end
 
     //@@ fn crates/ripd/src/continuities.rs ContinuityStore::provider_cursor_rotate_v1 rules=R9 r7=1,2
     //@@ sig
